@@ -52,7 +52,8 @@ Proof.
     exfalso. apply (Hbad (i_payload i)).
     + unfold round_payload. rewrite Er. exists i. auto.
     + eapply verify_ok_valid; eassumption.
-  - destruct create as [i| |] eqn:Ec; cbn; auto.
+  - destruct (N.eqb (m_round m) 0); [cbn; reflexivity|].
+    destruct create as [i| |] eqn:Ec; cbn; auto.
     rewrite Hne. cbn [negb andb].
     destruct (verify_ok st (i_payload i) m) eqn:Ev; cbn [negb]; [|reflexivity].
     exfalso. apply (Hbad (i_payload i)).
@@ -109,7 +110,8 @@ Proof.
   { unfold get_instance in Eg. cbn [h_st] in Eg. unfold round_payload.
     destruct (tget' (ns_rounds st) (m_round m)) as [d|].
     - destruct (from_dump d) as [i| |] eqn:Ef; try discriminate. inversion Eg; subst. split; [reflexivity|]. exists inst. auto.
-    - destruct create as [i| |] eqn:Ec; try discriminate. inversion Eg; subst. split; [reflexivity|]. exists inst. auto. }
+    - destruct (N.eqb (m_round m) 0); [discriminate|].
+      destruct create as [i| |] eqn:Ec; try discriminate. inversion Eg; subst. split; [reflexivity|]. exists inst. auto. }
   destruct Hh1 as [-> Hrp]. cbn [h_st] in H.
   rewrite He1 in H. cbn [negb andb] in H.
   destruct (verify_ok st (i_payload inst) m) eqn:Ev; cbn [negb] in H; [|discriminate].
@@ -194,14 +196,16 @@ Proof.
   2:{ unfold get_instance in Eg. cbn [h_st] in Eg.
       destruct (tget' (ns_rounds st) (m_round m)) as [d|].
       - destruct (from_dump d); try discriminate. inversion Eg; subst. inversion H; subst. intros w [].
-      - destruct create; try discriminate; inversion Eg; subst; inversion H; subst; intros w []. }
+      - destruct (N.eqb (m_round m) 0); [inversion Eg; subst; inversion H; subst; intros w []|].
+        destruct create; try discriminate; inversion Eg; subst; inversion H; subst; intros w []. }
   assert (Hh1 : h1 = {| h_st := st; h_tr := [] |} /\ needs_lazy_restart (i_dstate inst) = false).
   { unfold get_instance in Eg. cbn [h_st] in Eg.
     destruct (tget' (ns_rounds st) (m_round m)) as [d|] eqn:Ed.
     - specialize (Hstate d eq_refl). unfold from_dump in Eg.
       destruct (machine_by_state (d_state d)); try discriminate.
       destruct (copy_with_state_ok _ _); try discriminate. inversion Eg; subst. cbn. auto.
-    - unfold create in Eg. destruct (table_by_name _); try discriminate.
+    - destruct (N.eqb (m_round m) 0); [discriminate|].
+      unfold create in Eg. destruct (table_by_name _); try discriminate.
       destruct (copy_with_state_ok _ _); try discriminate. inversion Eg; subst. cbn. auto. }
   destruct Hh1 as [-> Hnl]. unfold needs_lazy_restart in Hnl. apply orb_false_iff in Hnl as [Hn1 Hn2].
   assert (Hnil : no_state_writes (h_tr {| h_st := st; h_tr := [] |})) by (intros w []).
